@@ -5,6 +5,7 @@ import (
 	"context"
 	"encoding/json"
 	"fmt"
+	"perkeep.org/pkg/blobserver/encrypt"
 	"sort"
 	"strings"
 
@@ -52,6 +53,12 @@ type c11Op struct {
 	Other  int    `json:"other,omitempty"`
 	// after tampering: also restart with a wiped index and check again
 	ThenRestart bool `json:"thenRestart,omitempty"`
+	// Largest: the target is the largest blob of the store (a packed meta
+	// blob); Tail: flips and cuts happen near the end of it (beyond its
+	// first authenticated chunk); Full: every blob is looked at afterwards
+	Largest bool `json:"largest,omitempty"`
+	Tail    bool `json:"tail,omitempty"`
+	Full    bool `json:"full,omitempty"`
 }
 
 func (o c11Op) String() string {
@@ -80,6 +87,13 @@ func genC11(tier string, run int, r *simcore.Rand) *harness.Plan {
 		}
 		maxSize = 200
 	}
+	// one run in 120: enough blobs for a packed meta blob larger than one
+	// authenticated chunk of the encryption (64 KiB)
+	large := run%120 == 61
+	if large {
+		compaction = true
+		nblobs, maxSize = r.Range(560, 640), 60
+	}
 	specs := sim.GenBlobSpecs(r, nblobs, maxSize)
 	for i := range specs {
 		// distinct, non-trivial contents so leak windows are meaningful
@@ -96,7 +110,7 @@ func genC11(tier string, run int, r *simcore.Rand) *harness.Plan {
 		if !compaction && r.Bool(0.12) {
 			op.CrashAt = r.Range(1, 6)
 		}
-		if compaction && recvd%100 == 0 && recvd > 0 && r.Bool(0.7) {
+		if compaction && !large && recvd%100 == 0 && recvd > 0 && r.Bool(0.7) {
 			// the receive that triggers meta compaction: die before one of
 			// the compaction's own writes (packed meta upload, small meta removal)
 			op.CrashAt = r.Range(3, 6)
@@ -107,6 +121,9 @@ func genC11(tier string, run int, r *simcore.Rand) *harness.Plan {
 		}
 		ops = append(ops, op)
 		recvd++
+		if large {
+			continue
+		}
 		if compaction && r.Bool(0.9) {
 			if recvd > 100 && r.Bool(0.2) {
 				ops = append(ops, c11Op{K: "restart", Wipe: true, Kill: r.Bool(0.7), Steps: r.Intn(400)})
@@ -132,8 +149,21 @@ func genC11(tier string, run int, r *simcore.Rand) *harness.Plan {
 			}
 		}
 	}
+	if large {
+		for _, k := range []string{"flip", "trunc", "trunc"} {
+			ops = append(ops, c11Op{K: "tamper", Store: "em", Largest: true, Tail: true, Full: true, Kind: k, Pos: r.Intn(1 << 20), Mask: 1 + r.Intn(255), ThenRestart: true})
+		}
+	}
 	ops = append(ops, c11Op{K: "leakscan"}, c11Op{K: "restart", Wipe: true}, c11Op{K: "enum"})
 	cfg := Config{Root: root, Blobs: specs}
+	// four runs in ten lower the two knobs of the meta compaction (shipped:
+	// a compaction after 100 small meta blobs, a meta blob full at 10000
+	// lines), so that short histories compact, and compact more than one
+	// full group at once
+	if !large && r.Bool(0.4) {
+		cfg.MetaSmall = []int{2, 3, 5, 10}[r.Intn(4)]
+		cfg.MetaFull = []int{3, 8, 20, 50}[r.Intn(4)]
+	}
 	p := &harness.Plan{Mode: "encrypt", Config: harness.MustJSON(cfg), Bubble: true}
 	p.LockYield = []int{0, 0, 50}[r.Intn(3)]
 	p.Sticky = []int{0, 700}[r.Intn(2)]
@@ -165,6 +195,13 @@ func execC11(rc *harness.RunCtx, p *harness.Plan, cfg *Config) *harness.Outcome 
 	env := rc.Env
 	if rc.Sched != nil {
 		env.OnCrash = rc.Sched.AbandonTasks
+	}
+	if cfg.MetaFull > 0 || cfg.MetaSmall > 0 {
+		// tuning knobs of the meta compaction, lowered for this run
+		if of, os, ok := encrypt.VerifSetMetaLimits(cfg.MetaFull, cfg.MetaSmall); ok {
+			defer encrypt.VerifSetMetaLimits(of, os)
+			out.Reached["compaction-knobs-lowered"]++
+		}
 	}
 	var berr error
 	if herr := s.task(func() { berr = s.build() }); herr != nil || berr != nil {
@@ -376,7 +413,19 @@ func execC11(rc *harness.RunCtx, p *harness.Plan, cfg *Config) *harness.Outcome 
 			}
 			snapB, snapM, snapIdx := eb.Snapshot(), em.Snapshot(), s.world.KVState("enc.idx").Snapshot()
 			target := refs[op.Target%len(refs)]
+			if op.Largest {
+				for _, r := range refs {
+					a, _ := st.Get(r)
+					b, _ := st.Get(target)
+					if len(a) > len(b) {
+						target = r
+					}
+				}
+			}
 			orig, _ := st.Get(target)
+			if op.Tail && len(orig) > 70000 {
+				out.Reached["tamper-beyond-the-first-chunk-of-a-packed-meta"]++
+			}
 			variants := [][]byte{}
 			switch op.Kind {
 			case "flip":
@@ -384,7 +433,11 @@ func execC11(rc *harness.RunCtx, p *harness.Plan, cfg *Config) *harness.Outcome 
 					continue
 				}
 				c := append([]byte(nil), orig...)
-				c[op.Pos%len(c)] ^= byte(op.Mask)
+				pos := op.Pos % len(c)
+				if op.Tail {
+					pos = len(c) - 1 - op.Pos%min(len(c), 200)
+				}
+				c[pos] ^= byte(op.Mask)
 				variants = append(variants, c)
 			case "flipall":
 				// every position for small blobs, stratified otherwise
@@ -399,6 +452,9 @@ func execC11(rc *harness.RunCtx, p *harness.Plan, cfg *Config) *harness.Outcome 
 				}
 			case "trunc":
 				cuts := []int{0, 1, len(orig) / 2, len(orig) - 16, len(orig) - 1}
+				if op.Tail {
+					cuts = []int{len(orig) - 100, len(orig) - 5000, len(orig) - 1}
+				}
 				n := cuts[op.Pos%len(cuts)]
 				if n < 0 {
 					n = 0
@@ -439,6 +495,9 @@ func execC11(rc *harness.RunCtx, p *harness.Plan, cfg *Config) *harness.Outcome 
 					restartFull = only
 				}
 			}
+			if op.Full {
+				only, restartFull = nil, nil
+			}
 			out.SubRuns += len(variants)
 			out.Fired["tamper-"+op.Kind] += len(variants)
 			for vi, v := range variants {
@@ -458,10 +517,29 @@ func execC11(rc *harness.RunCtx, p *harness.Plan, cfg *Config) *harness.Outcome 
 						out.Reached["startup-refused-tampered"]++
 					} else if msg := sweep(true); msg != "" {
 						return fail(i, "tamper-undetected-after-restart", desc+", then restart with wiped index: "+msg)
+					} else if op.Store == "em" && op.Kind != "drop" && !bytes.Equal(v, orig) {
+						// the start-up scan accepted every meta blob, the
+						// tampered one included: then the mapping it rebuilt
+						// must be the whole mapping. Coming up without a word
+						// and with part of the store gone is not detection.
+						out.Reached["startup-accepted-tampered-meta"]++
+						sop := sim.Op{Kind: "stat", B: all}
+						res, herr := s.do(ctx, sop)
+						if herr != nil {
+							return fail(i, "hang", "stat never returned")
+						}
+						if vv := s.model.Clone().Check(sop, res, false); len(vv) > 0 {
+							return fail(i, "tampered-meta-accepted-mapping-incomplete", desc+", then restart with wiped index succeeded without complaint, but: "+vv[0])
+						}
 					}
 				}
 				restarted := op.ThenRestart && (vi == 0 || (op.Store == "em" && vi < 8))
-				// restore
+				// restore; a refused start-up may have left a compaction of
+				// the instance that never came up in flight (a real process
+				// would have exited): let it finish before time is turned back
+				if rc.Sched != nil {
+					rc.Sched.Run()
+				}
 				eb.Restore(snapB)
 				em.Restore(snapM)
 				s.world.KVState("enc.idx").Restore(snapIdx)
